@@ -239,12 +239,14 @@ def slerp_threshold(ctx):
     return 10
 
 
-def s_slerp(rng):
+def s_slerp(rng, flip=True):
     """unit pair with relative quaternion angle log-uniform 1e-9 .. 3 (not inside the ulp-neighbourhood of the K*eps threshold), s grid"""
     q0 = rand_unit(rng, 4)
     th = float(rng.choice([0.0, log_uniform(rng, 1e-9, 3.0), log_uniform(rng, 1e-5, 0.2), rng.uniform(0, 3.0)]))
     q1 = hamilton(q0, np.r_[math.cos(th), math.sin(th) * rand_unit(rng)])
-    if rng.random() < 0.3:
+    if flip and rng.random() < 0.3:
+        # the other sign of q1: only with shortest=True (the long way round between nearly antipodal quaternions divides by
+        # sin(theta) ~ 0: rounding-dominated, C11's near-antipodal band, not a correspondence question)
         q1 = -q1
     return [q0, q1, float(rng.choice([0.0, 1.0, 0.5, rng.uniform(0, 1), rng.uniform(0, 1), rng.uniform(0, 1)]))]
 
@@ -260,7 +262,7 @@ def build_interp(g, ctx):
                     "Definition m01_slerp_short {T} (O : ops T) (p q : V4 T) (s : T) : option (V4 T) := optres (slerp O (of_Z O slerp_k01) p q s true).\n")
     inputs = [('p', 'V4'), ('q', 'V4'), ('s', 'S')]
     g.model('m01_slerp_long', inputs, 'O:V4', coq='m01_slerp_long', module='Model.C11_Interp',
-            num_fn=lambda p, q, s: base.slerp(p, q, s, shortest=False), sampler=s_slerp, tol=1e-9)
+            num_fn=lambda p, q, s: base.slerp(p, q, s, shortest=False), sampler=lambda rng: s_slerp(rng, False), tol=1e-9)
     g.model('m01_slerp_short', inputs, 'O:V4', coq='m01_slerp_short', module='Model.C11_Interp',
             num_fn=lambda p, q, s: base.slerp(p, q, s, shortest=True), sampler=s_slerp, tol=1e-9)
 
